@@ -88,7 +88,8 @@ STATEFUL = ("PyDict_Next(",)
 class SymPath:
     """trace: ordered list of
          ('atom', text, truth, node_id)
-         ('call', callee, [arg texts], full text, line, stmt_level)"""
+         ('call', callee, [arg texts], full text, line, stmt_level)
+         ('store', field text, value text, line)"""
     __slots__ = ("trace", "outcome", "lines", "nodes", "env")
 
     def __init__(self, trace, outcome, lines, nodes, env=None):
@@ -142,6 +143,17 @@ def _calls_in_order(n, out):
         out.append(n)
 
 
+def _stores_in_order(n, out):
+    """assignments whose target is a struct field or array element"""
+    for c in n.ch:
+        _stores_in_order(c, out)
+    if n.kind == "BinaryOperator" and n.op == "=":
+        lhs = strip(n.ch[0])
+        if lhs is not None and lhs.kind in ("MemberExpr",
+                                            "ArraySubscriptExpr"):
+            out.append(n)
+
+
 def sym_paths(g, start=None, seed=None, stops=None, max_paths=60000,
               name=""):
     """Enumerate symbolic paths.  ``stops``: node id -> tag ends a path."""
@@ -175,6 +187,20 @@ def sym_paths(g, start=None, seed=None, stops=None, max_paths=60000,
                                 [pre.text(a) for a in c.ch[1:]],
                                 pre.text(c), c.line or node.line,
                                 c is top and node.kind == "stmt"))
+            stores = []
+            _stores_in_order(node.ast, stores)
+            if stores:
+                if ev2 is trace:
+                    ev2 = list(trace)
+                for st in stores:
+                    s2 = Sym(dict(env))
+                    lhs = strip(st.ch[0])
+                    if lhs.kind == "MemberExpr":
+                        lt = f"{s2.text(lhs.ch[0])}{'->' if lhs.arrow else '.'}{lhs.name}"
+                    else:
+                        lt = s2.text(lhs)
+                    ev2.append(("store", lt, Sym(dict(env)).text(st.ch[1]),
+                                st.line or node.line))
         if node.kind == "return":
             rv = sym.text(node.ast.ch[0]) if node.ast.ch else ""
             out.append(SymPath(ev2, ("RETURN", rv),
